@@ -794,7 +794,7 @@ def run_suite(pid, suite, rng, tier, profiles, workdir, changed):
     dist = {}
     for prof in profiles:
         for c in cases:
-            c.debug = 1 if prof == 'debug' else 0
+            c.debug = 0 if prof == 'release' else 1
         t_budget = 240 if tier == 'quick' else 1800
         hres, crashes = C.run_harness(cases, workdir, prof, timeout=t_budget, tag=f'cases-{prof}')
         mres = C.run_model(cases, workdir, tag=f'cases-{prof}') if not suite.get('no_model') else {}
@@ -1731,7 +1731,7 @@ SUITES.update({
                 rule='thread pools of 1..32 threads x sizes 0..50000 x per-element delay patterns; every parallel helper against its sequential counterpart on a clone'),
     'C19': dict(gen=gen_C19, oracle=oracle_C19, files=['src/convert.rs', 'src/construct.rs', 'src/macros.rs'],
                 rule='row counts 0..4 x row lengths 0..4 with one odd row at every position (shorter, longer, empty), length-coincidence cases, all conversions, constructors and macro arms'),
-    'C20': dict(gen=gen_C20, oracle=oracle_C20, files=['src/fmt.rs'],
+    'C20': dict(gen=gen_C20, oracle=oracle_C20, files=['src/fmt.rs'], feature_profiles=['nodefault', 'full'],
                 rule='shapes <= 3x3 plus degenerate and 1x5/5x1, both orders, renderings from a pool (empty, ASCII, multi-byte, multi-line, CRLF, trailing newline)'),
 })
 
